@@ -14,7 +14,7 @@ FLAGS_plain := $(BASE)
 REPO_SRCS := $(wildcard $(REPO)/src/CppUTest/*.cpp) $(wildcard $(REPO)/src/CppUTestExt/Mock*.cpp) $(REPO)/src/Platforms/Gcc/UtestPlatform.cpp
 repo_objs = $(patsubst $(REPO)/src/%.cpp,$(B)/$(1)/repo/%.o,$(REPO_SRCS))
 
-ENGINES_asan := runsim heapsim cachesim
+ENGINES_asan := runsim heapsim cachesim mocksim
 ENGINES_noexc := runsim
 ENGINES_noguard := heapsim
 ENGINES_plain := runsim
@@ -48,6 +48,10 @@ $(foreach v,asan noguard,$(eval $(call HEAPSIM_RULE,$(v))))
 
 CACHESIM_SRCS := cachesim/cachesim.cpp core/asanopts.cpp
 $(B)/asan/cachesim: $(patsubst %.cpp,$(B)/asan/verif/%.o,$(CACHESIM_SRCS)) $(call repo_objs,asan)
+	$(CXX) $(FLAGS_asan) $^ -o $@ -lpthread
+
+MOCKSIM_SRCS := mocksim/mocksim.cpp core/asanopts.cpp
+$(B)/asan/mocksim: $(patsubst %.cpp,$(B)/asan/verif/%.o,$(MOCKSIM_SRCS)) $(call repo_objs,asan)
 	$(CXX) $(FLAGS_asan) $^ -o $@ -lpthread
 
 clean:
